@@ -55,6 +55,10 @@ type VC struct {
 	assumed  map[string]bool // assumptions recorded for evidence
 	nosafe   bool
 	nosafeKinds map[string]bool
+	defBody    map[string]string    // Define'd name -> body (for syntactic address normalisation)
+	heapLayer  map[string]heapLayer // heap term -> what it changes relative to its base heap
+	preRids    map[string]bool      // rid terms known to be below the entry allocation counter
+	freshRids  map[string]bool      // rid terms of objects allocated by the function (>= entry counter)
 	captured   []capturedCell // cells of the variables a closure under contract captures
 	declsCache string // type declarations, frozen before obligations are solved in parallel
 	entryAlloc Term
@@ -123,8 +127,9 @@ func (vc *VC) rootPkg() string {
 	return ""
 }
 
-// contractFor: in-repo contracts by function key; assumed (extern) contracts only
-// from the contract file of the package being verified.
+// contractFor: in-repo contracts by function key (the callee's own, proved contract - with its
+// preconditions - always wins); assumed (extern) contracts only from the contract file of the
+// package being verified.
 func (vc *VC) contractFor(key string) *FuncContract {
 	if c := vc.ctx.contracts[key]; c != nil {
 		return c
@@ -170,6 +175,10 @@ func (vc *VC) Define(base string, t Term) Term {
 	}
 	n := vc.freshName(base)
 	vc.emitf("(define-fun %s () %s %s)\n", n, t.Sort, t.S)
+	if vc.defBody == nil {
+		vc.defBody = map[string]string{}
+	}
+	vc.defBody[n] = t.S
 	return Term{n, t.Sort}
 }
 
@@ -752,4 +761,161 @@ func sortedKV(m map[[2]Sort]bool) [][2]Sort {
 		return ks[i][1] < ks[j][1]
 	})
 	return ks
+}
+
+// ---------------------------------------------------------------------------
+// Read-over-write resolution at generation time.
+//
+// Every object a function allocates has an id at or above the entry allocation counter; every
+// object reachable from a parameter has an id below it. A read at an address whose object id is
+// (syntactically) a parameter's therefore skips every heap layer that only writes objects
+// allocated by the function: the read is emitted against the base heap. This is what an SMT
+// solver would derive with array axioms and arithmetic on every such read; doing it here makes
+// specification terms over parameters textually identical across states, so that wide
+// bit-vector terms over them are shared instead of proved equal circuit by circuit.
+
+type heapLayer struct {
+	base Term
+	rids []string // normalised rid terms of the only objects the layer writes
+}
+
+// sexprFirstArgs splits "(head a b ...)" into head and arguments.
+func sexprSplit(s string) (string, []string) {
+	if len(s) < 2 || s[0] != '(' || s[len(s)-1] != ')' {
+		return s, nil
+	}
+	body := s[1 : len(s)-1]
+	var parts []string
+	depth, start := 0, -1
+	for i := 0; i < len(body); i++ {
+		c := body[i]
+		switch {
+		case c == '(':
+			if depth == 0 && start < 0 {
+				start = i
+			}
+			depth++
+		case c == ')':
+			depth--
+			if depth == 0 {
+				parts = append(parts, body[start:i+1])
+				start = -1
+			}
+		case c == ' ' || c == '\n':
+			if depth == 0 && start >= 0 {
+				parts = append(parts, body[start:i])
+				start = -1
+			}
+		default:
+			if depth == 0 && start < 0 {
+				start = i
+			}
+		}
+	}
+	if start >= 0 {
+		parts = append(parts, body[start:])
+	}
+	if len(parts) == 0 {
+		return s, nil
+	}
+	return parts[0], parts[1:]
+}
+
+// normRid: the object id of a reference term, with (rid (mkref x _)) folded to x and defined
+// names unfolded; "" if it cannot be told syntactically.
+func (vc *VC) normRid(ref string) string {
+	for i := 0; i < 16; i++ {
+		if b, ok := vc.defBody[ref]; ok {
+			ref = b
+			continue
+		}
+		h, args := sexprSplit(ref)
+		if h == "mkref" && len(args) == 2 {
+			return vc.normRidTerm(args[0])
+		}
+		if h == "eaddr" && len(args) == 3 {
+			ref = args[0]
+			continue
+		}
+		break
+	}
+	return vc.normRidTerm("(rid " + ref + ")")
+}
+
+func (vc *VC) normRidTerm(r string) string {
+	for i := 0; i < 16; i++ {
+		if b, ok := vc.defBody[r]; ok {
+			r = b
+			continue
+		}
+		h, args := sexprSplit(r)
+		if h == "rid" && len(args) == 1 {
+			inner := args[0]
+			if b, ok := vc.defBody[inner]; ok {
+				inner = b
+			}
+			h2, a2 := sexprSplit(inner)
+			if h2 == "mkref" && len(a2) == 2 {
+				r = a2[0]
+				continue
+			}
+			if h2 == "eaddr" && len(a2) == 3 {
+				r = "(rid " + a2[0] + ")"
+				continue
+			}
+			if h2 == "sbase" && len(a2) == 1 {
+				return "(rid (sbase " + a2[0] + "))"
+			}
+			return "(rid " + inner + ")"
+		}
+		break
+	}
+	return r
+}
+
+func (vc *VC) notePreRid(ref Term) {
+	if vc.preRids == nil {
+		vc.preRids = map[string]bool{}
+	}
+	vc.preRids[vc.normRid(ref.S)] = true
+}
+
+func (vc *VC) noteFreshRid(id Term) {
+	if vc.freshRids == nil {
+		vc.freshRids = map[string]bool{}
+	}
+	vc.freshRids[vc.normRidTerm(id.S)] = true
+}
+
+func (vc *VC) noteLayer(h Term, base Term, refs ...Term) {
+	if vc.heapLayer == nil {
+		vc.heapLayer = map[string]heapLayer{}
+	}
+	var rids []string
+	for _, r := range refs {
+		rids = append(rids, vc.normRid(r.S))
+	}
+	vc.heapLayer[h.S] = heapLayer{base, rids}
+}
+
+// peelHeap: the heap to read address addr from.
+func (vc *VC) peelHeap(h Term, addr Term) Term {
+	if len(vc.heapLayer) == 0 || len(vc.preRids) == 0 {
+		return h
+	}
+	if !vc.preRids[vc.normRid(addr.S)] {
+		return h
+	}
+	for {
+		l, ok := vc.heapLayer[h.S]
+		if !ok {
+			return h
+		}
+		for _, r := range l.rids {
+			if !vc.freshRids[r] {
+				return h
+			}
+		}
+		h = l.base
+	}
 }
